@@ -122,8 +122,11 @@ type genOpts struct {
 	// SigAccept / SigAcceptN: the first SigAcceptN transactions of the epoch are re-signed (recent blockhash varied)
 	// until SigAccept(signature) holds — e.g. "another epoch's sig-to-cid index answers this signature" (a 24-bit
 	// hash collision across epochs)
-	SigAccept  func(sig []byte) bool
-	SigAcceptN int
+	SigAccept func(sig []byte) bool
+	// SigPrefixes: the i-th transaction of the epoch is re-signed until its signature starts with SigPrefixes[i]
+	// (the edge buckets of the sig-exists file: ff ff is the last offset-table entry, 00 00 the bucket at offset 0)
+	SigPrefixes [][2]byte
+	SigAcceptN  int
 }
 
 func pp[T any](v T) **T { p := &v; return &p }
@@ -387,6 +390,9 @@ func genEpoch(rng *zz.RNG, dir string, o genOpts) *gEpoch {
 					grindSigPrefix(tx, payer, [2]byte{from[0], from[1]})
 					ge.twins++
 				}
+			}
+			if len(ge.allSigs) < len(o.SigPrefixes) {
+				grindSigPrefix(tx, payer, o.SigPrefixes[len(ge.allSigs)])
 			}
 			if o.SigAccept != nil && ge.accepted < o.SigAcceptN {
 				grindSig(tx, payer, o.SigAccept)
